@@ -27,6 +27,7 @@ func (c schemaCase) source() string { return smodel.Render(c.Format, c.Model) }
 
 func drawSchemaCase(rt *rapid.T, cfg smodel.GenConfig, docsPerDef int) schemaCase {
 	cfg.NestedCollections = rapid.IntRange(0, 2).Draw(rt, "nestedcollections") == 0
+	cfg.NamedUnions = rapid.IntRange(0, 2).Draw(rt, "namedunions") == 0
 	m := smodel.Draw(rt, cfg)
 	c := schemaCase{Format: cfg.Format, Model: m}
 	for _, def := range m.DocDefs() {
